@@ -575,3 +575,375 @@ class Z1dBijection(Lemma):
 
 
 UNITS += [Z1dBijection()]
+
+
+# ----------------------------------------------------------------- Rosenberg-Strong in d dimensions (the overriding n-d methods)
+def RSd(x):
+    """spec: r_1(x) = x_1;  r_d(x) = r_{d-1}(x_1..x_{d-1}) + m^d + (m - x_d)((m+1)^{d-1} - m^{d-1}),  m = max(x)."""
+    d = len(x)
+    if d == 1:
+        return x[0]
+    m = smax(list(x))
+    return RSd(x[:-1]) + m ** d + (m - x[-1]) * ((m + 1) ** (d - 1) - m ** (d - 1))
+
+
+class RSndProjection(FunctionContract):
+    """RosenbergStrong.projection(z, dim): result in N^dim, r_dim(result) = z, and z lies in the shell of max(result)."""
+    prop = "C14"
+    target = P + "RosenbergStrong.projection"
+    cases = (1, 2, 3)
+    raises_exact = False
+
+    def __init__(self, spec=None):
+        self.spec = spec or RSd
+        self.name = "RosenbergStrong.projection"
+        self.loops = {
+            0: LoopSpec(lambda L, g: L.m >= 0, decreases=lambda L: L.m),
+            1: LoopSpec(lambda L, g: And(L.m >= 0, L.m ** L.dim <= L.z), decreases=lambda L: L.z - L.m),
+        }
+        self.modular = (self,)
+        N = "RosenbergStrong.projection::hint:"
+
+        def hint_xd(L, vc):
+            m, z, dim = L.m, L.z, L.dim
+            r, t = z - L.m_d, m - L.xd
+            vc.check(N + "offset-in-shell", And(r >= 0, r < (m + 1) ** dim - m ** dim))
+            vc.check(N + "layer-quotient", Or(And(r < L.m_d1, t == 0),
+                                              And(r >= L.m_d1, t * L.aux <= r - L.m_d1, r - L.m_d1 < (t + 1) * L.aux)))
+            vc.check(N + "layer-index-range", And(t >= 0, t <= m))
+
+        def hint_p(L, vc):
+            m, z, dim = L.m, L.z, L.dim
+            t = m - L.xd
+            zz = z - L.m_d - t * L.aux
+            vc.check(N + "remainder-range", And(zz >= 0, zz < (m + 1) ** (dim - 1), Or(t == 0, zz >= L.m_d1)))
+            M2 = smax(list(L.p))
+            vc.check(N + "inner-max-bounded", M2 <= m)
+            vc.check(N + "inner-max-attained-off-top-layer", Or(t == 0, M2 == m))
+        self.hints = {"xd": hint_xd, "p": hint_p}
+
+    def setup(self, vc, case):
+        o = vc.obj(P + "RosenbergStrong")
+        return dict(self=o, z=vc.int("z"), dim=case)
+
+    def requires(self, z=None, dim=None, **kw):
+        return z >= 0
+
+    def ensures(self, result, z=None, dim=None, **kw):
+        if not (isinstance(result, tuple) and len(result) == dim):
+            return {"shape": False}
+        if self.spec is not RSd:
+            return {"natural-coordinates": nonneg(*result), "right-inverse": self.spec(result) == z}
+        m = smax(list(result))
+        return {"natural-coordinates": nonneg(*result),
+                "shell": And(m ** dim <= z, z < (m + 1) ** dim),
+                "right-inverse": RSd(result) == z}
+
+    def modular_result(self, vc, z=None, dim=None, **kw):
+        return tuple(vc.fresh(f"q{i}", "i") for i in range(dim))
+
+    def replay(self, model, clause, case):
+        o = native(P + "RosenbergStrong")()
+        z = model.get("z", 0)
+        try:
+            r = tuple(int(v) for v in o.projection(z, case))
+            ok = self.ensures(r, z=z, dim=case)[clause]
+            return (not ok, {"z": z, "dim": case, "native_result": list(r)})
+        except Exception as e:
+            return (True, {"z": z, "dim": case, "exception": f"{type(e).__name__}: {e}"})
+
+
+UNITS += [RSndProjection()]
+
+
+class RSndPairing(FunctionContract):
+    """RosenbergStrong.pairing(x): the literature formula r_d, natural, and inside the shell of max(x)."""
+    prop = "C14"
+    target = P + "RosenbergStrong.pairing"
+    cases = (1, 2, 3)
+
+    def __init__(self, spec=None):
+        self.name = "RosenbergStrong.pairing"
+        self.spec = spec or RSd
+        self.modular = (self,)
+
+    def setup(self, vc, case):
+        return dict(self=vc.obj(P + "RosenbergStrong"), x=tuple(vc.ints("x", case)))
+
+    def requires(self, x=None, **kw):
+        return nonneg(*x)
+
+    def ensures(self, result, x=None, **kw):
+        out = {"equals-spec": result == self.spec(tuple(x)), "natural": result >= 0}
+        if self.spec is RSd:
+            m, d = smax(list(x)), len(x)
+            out["shell"] = And(m ** d <= result, result < (m + 1) ** d)
+        return out
+
+    def modular_result(self, vc, x=None, **kw):
+        return vc.fresh("rs", "i")
+
+    def replay(self, model, clause, case):
+        o = native(P + "RosenbergStrong")()
+        x = tuple(model.get("x", [0] * case))
+        r = o.pairing(x)
+        return (not self.ensures(r, x=x)[clause], {"x": list(x), "native_result": r})
+
+
+class CubeMonotone(Lemma):
+    prop = "C14"
+    name = "lemma:cube-monotone"
+
+    def statement(self, a, b):
+        return Implies(And(a >= 0, a <= b), a * a * a <= b * b * b)
+
+    def prove(self, vc, case):
+        a, b = vc.int("a"), vc.int("b")
+        vc.assume(And(a >= 0, a <= b))
+        vc.check(self.name + "::factor", b * b * b - a * a * a == (b - a) * (b * b + a * b + a * a))
+        vc.check(self.name + "::factors-nonnegative", And(b - a >= 0, b * b + a * b + a * a >= 0))
+        vc.check(self.name + "::monotone", a * a * a <= b * b * b)
+
+
+CUBE = CubeMonotone()
+
+
+class RSndInjective(Lemma):
+    prop = "C14"
+    cases = (2, 3)
+
+    def __init__(self):
+        self.name = "lemma:RosenbergStrong.nd-spec-injective"
+
+    def statement(self, x, u, spec=RSd):
+        return Implies(And(nonneg(*x), nonneg(*u), spec(tuple(x)) == spec(tuple(u))), And(*[a == b for a, b in zip(x, u)]))
+
+    def prove(self, vc, d):
+        x, u = tuple(vc.ints("x", d)), tuple(vc.ints("u", d))
+        vc.assume(And(nonneg(*x), nonneg(*u), RSd(x) == RSd(u)))
+        n = f"{self.name}[{d}]"
+        m, k = smax(list(x)), smax(list(u))
+        # shell facts of both sides (each proved as a clause of RSndPairing), then: equal maxima, equal last coordinate, recurse
+        for w, mw in ((x, m), (u, k)):
+            vc.check(n + "::shell", And(mw ** d <= RSd(w), RSd(w) < (mw + 1) ** d))
+        if d == 3:
+            vc.assume(CUBE.statement(m + 1, k))      # use(lemma cube-monotone)
+            vc.assume(CUBE.statement(k + 1, m))
+        vc.check(n + "::same-shell", m == k)
+        if d == 3:
+            for w in (x, u):
+                m2 = smax(list(w[:-1]))
+                vc.check(n + "::inner-shell", And(m2 * m2 <= RSd(w[:-1]), RSd(w[:-1]) < (m2 + 1) * (m2 + 1), m2 <= m))
+            vc.check(n + "::same-last", x[-1] == u[-1])
+            vc.check(n + "::same-inner-value", RSd(x[:-1]) == RSd(u[:-1]))
+            vc.assume(self.statement(x[:-1], u[:-1]))     # use(lemma at d-1)
+        vc.check(n + "::injective", And(*[a == b for a, b in zip(x, u)]))
+
+
+class RSndBijection(Lemma):
+    prop = "C14"
+    cases = (2, 3)
+
+    def __init__(self):
+        self.name = "property:RosenbergStrong.nd-bijection"
+
+    def prove(self, vc, d):
+        import z3
+        from pyvc.sym import lift, as_int_term
+        f = z3.Function(f"spec_RS{d}", *([z3.IntSort()] * (d + 1)))
+
+        def S(x):
+            return Sym(f(*[as_int_term(lift(c)) for c in x]), "i")
+        n = f"{self.name}[{d}]"
+        pc, qc, inj = RSndPairing(S), RSndProjection(), RSndInjective()
+        qens = lambda r, z: {"natural-coordinates": nonneg(*r), "right-inverse": S(r) == z}
+        x, z = tuple(vc.ints("x", d)), vc.int("z")
+        vc.assume(nonneg(*x, z))
+        w = vc.fresh("w", "i")
+        vc.assume(And(*pc.ensures(w, x=x).values()))
+        vc.check(n + "::pairing-lands-in-projection-domain", qc.requires(z=w, dim=d))
+        r = qc.modular_result(vc, z=w, dim=d)
+        vc.assume(And(*qens(r, w).values()))
+        vc.assume(inj.statement(r, x, spec=S))
+        vc.check(n + "::projection-after-pairing-is-identity", And(*[a == b for a, b in zip(r, x)]))
+        q = qc.modular_result(vc, z=z, dim=d)
+        vc.assume(And(*qens(q, z).values()))
+        vc.check(n + "::projection-lands-in-pairing-domain", pc.requires(x=q))
+        w2 = vc.fresh("w2", "i")
+        vc.assume(And(*pc.ensures(w2, x=q).values()))
+        vc.check(n + "::pairing-after-projection-is-identity", w2 == z)
+
+
+UNITS += [CUBE, RSndPairing(), RSndInjective(), RSndBijection()]
+
+
+class ZdBijectionRS(Lemma):
+    """PairingToZd over RosenbergStrong (which overrides the n-d pairing/projection): real bodies of pair/project/
+    pairing/projection of PairingToZd; RosenbergStrong.pairing/projection and the foldings through their contracts."""
+    prop = "C14"
+    cases = (2, 3)
+
+    def __init__(self):
+        self.name = "property:PairingToZd[RosenbergStrong].bijection"
+
+    def prove(self, vc, d):
+        import z3
+        from pyvc.sym import lift, as_int_term
+        it = vc.interp
+        f = z3.Function(f"spec_RS{d}", *([z3.IntSort()] * (d + 1)))
+
+        def S(x):
+            return Sym(f(*[as_int_term(lift(c)) for c in x]), "i")
+        n = f"{self.name}[{d}]"
+        pc, qc, inj = RSndPairing(S), RSndProjection(S), RSndInjective()
+        mz, pz = MappingToZ(), ProjectionToZ()
+        it.modular = {pc.target: pc, qc.target: qc, mz.target: mz, pz.target: pz}
+        zero = tuple([0] * d)
+        vc.assume(S(zero) == 0)      # r_d(0,..,0) = 0: instance of RSndPairing::shell at x = 0
+        o = vc.obj(P + "PairingToZd", n_pairing=vc.obj(P + "RosenbergStrong"), dimension=d, _omitting_zero=1)
+        i = vc.int("i")
+        vc.assume(i >= 0)
+        s_ = it.call(it.getattr(o, "project"), [i], {})
+        vc.check(n + "::state-shape", isinstance(s_, tuple) and len(s_) == d)
+        vc.check(n + "::never-the-origin", Or(*[c != 0 for c in s_]))
+        back = it.call(it.getattr(o, "pair"), [tuple(s_)], {})
+        vc.check(n + "::index-of-state-inverts-state-of-index", back == i)
+        x = tuple(vc.ints("x", d))
+        vc.assume(Or(*[c != 0 for c in x]))
+        ys = tuple(MZ(c) for c in x)
+        vc.assume(inj.statement(ys, zero, spec=S))
+        j = it.call(it.getattr(o, "pair"), [x], {})
+        vc.check(n + "::index-natural", j >= 0)
+        t = it.call(it.getattr(o, "project"), [j], {})
+        vc.assume(inj.statement(tuple(MZ(c) for c in t), ys, spec=S))
+        vc.check(n + "::state-of-index-inverts-index-of-state", And(*[a == b for a, b in zip(t, x)]))
+
+    def replay(self, model, clause, d):
+        return ZdBijection("RosenbergStrong", d).replay(model, clause, None)
+
+
+UNITS += [ZdBijectionRS()]
+
+
+# ----------------------------------------------------------------- lazy cartesian product
+def digits(n, sizes, order="CM"):
+    """mixed-radix digits of n.  CM (first index fastest): digit k = (n // prod(sizes[:k])) % sizes[k];
+    RM (itertools.product order, last index fastest): digit k = (n // prod(sizes[k+1:])) % sizes[k]."""
+    out = []
+    for k in range(len(sizes)):
+        den = 1
+        for s in (sizes[:k] if order == "CM" else sizes[k + 1:]):
+            den = den * s
+        out.append((n // den) % sizes[k])
+    return tuple(out)
+
+
+class LazyProduct(FunctionContract):
+    """lazy_indices_product(sizes): exactly prod(sizes) tuples, the n-th being the mixed-radix digits of n -- in either
+    of the two digit orders (alternatives: the property fixes no enumeration order)."""
+    prop = "C14"
+    target = "rpylib.tools.generic:lazy_indices_product"
+    cases = (1, 2, 3)
+
+    def alt_group(self, case):
+        return f"lazy_indices_product[{case}]"
+
+    def __init__(self, order):
+        self.order = order
+        self.name = f"lazy_indices_product<{order}>"
+
+        def inv(L, g):
+            sizes = L.args
+            total = 1
+            for s in sizes:
+                total = total * s
+            out = [L.nb_of_elements == total]
+            if g.get("last") is not None:
+                out.append(Eq(tuple(g["last"]), digits(L._i - 1, sizes, order)))
+            return And(*out)
+
+        def step(L, g):
+            g["last"] = L._frame.yields[-1]
+        self.loops = {0: LoopSpec(inv, ghost_step=step, havoc={"__ghost__": lambda path, g: g.__setitem__("last", None)},
+                                  label=f"lazy_indices_product<{order}>::n-th-tuple-is-the-mixed-radix-digits-of-n")}
+
+    def setup(self, vc, case):
+        return dict(args=vc.ints("size", case))
+
+    def requires(self, args):
+        return And(*[s >= 1 for s in args])
+
+    def ensures(self, result, args):
+        return {}
+
+    def replay(self, model, clause, case):
+        import itertools
+        sizes = [int(v) for v in model.get("size", [2, 3][:case])]
+        sizes = [max(1, min(s, 6)) for s in sizes]      # shrink: the law of the enumeration does not depend on magnitude
+        got = list(native(self.target)(list(sizes)))
+        want = list(itertools.product(*[range(s) for s in sizes]))
+        bad = sorted(got) != sorted(want)          # the property: every tuple exactly once (any order)
+        if not bad and any(int(v) != s for v, s in zip(model.get("size", []), sizes)):
+            # the shrunken instance is fine: try the solver's own sizes if small enough
+            big = [int(v) for v in model.get("size", [])]
+            tot = 1
+            for b in big:
+                tot *= b
+            if 0 < tot <= 200000:
+                got = list(native(self.target)(list(big)))
+                want = list(itertools.product(*[range(s) for s in big]))
+                bad, sizes = sorted(got) != sorted(want), big
+        return (bad, {"sizes": sizes, "native_first": [list(t) for t in got[:8]], "expected_first": [list(t) for t in want[:8]],
+                      "distinct": len(set(got)), "expected_count": len(want)})
+
+
+class DigitsBijective(Lemma):
+    """n -> digits(n, sizes) is a bijection [0, prod sizes) -> prod [0, size_k): 'every index tuple exactly once'."""
+    prop = "C14"
+    name = "lemma:mixed-radix-digits-bijective"
+    cases = (2, 3)      # stated for RM digits; CM digits of `sizes` are the reversed RM digits of the reversed sizes
+
+    def prove(self, vc, d):
+        order = "RM"
+        sizes = vc.ints("size", d)
+        vc.assume(And(*[s >= 1 for s in sizes]))
+        total = 1
+        for s in sizes:
+            total = total * s
+        n, k = vc.int("n"), vc.int("k")
+        nm = f"{self.name}[{order},{d}]"
+        vc.assume(And(n >= 0, n < total, k >= 0, k < total))
+        dn, dk = digits(n, sizes, "RM"), digits(k, sizes, "RM")
+        vc.check(nm + "::digits-in-range", And(*[And(a >= 0, a < s) for a, s in zip(dn, sizes)]))
+        # reconstruction n = sum digit_k * weight_k (Horner), hence injective
+        def horner(ds):
+            acc = 0
+            for a, s in zip(ds, sizes):
+                acc = acc * s + a
+            return acc
+        if d == 3:
+            vc.check(nm + "::leading-digit-exact", (n // (sizes[1] * sizes[2])) < sizes[0])
+            q = n // sizes[2]
+            vc.check(nm + "::nested-quotient", q // sizes[1] == n // (sizes[1] * sizes[2]))
+        else:
+            vc.check(nm + "::leading-digit-exact", (n // sizes[1]) < sizes[0])
+        vc.check(nm + "::reconstruction", horner(dn) == n)
+        vc.assume(horner(dk) == k)     # same statement at k (n is arbitrary)
+        vc.check(nm + "::injective", Implies(Eq(dn, dk), n == k))
+        # surjective: any tuple in range is the digits of its Horner value
+        t = vc.ints("t", d)
+        vc.assume(And(*[And(a >= 0, a < s) for a, s in zip(t, sizes)]))
+        h = horner(t)
+        vc.check(nm + "::horner-in-range", And(h >= 0, h < total))
+        if d == 3:
+            vc.check(nm + "::hint:last-two", And(h // sizes[2] == t[0] * sizes[1] + t[1], h % sizes[2] == t[2]))
+            vc.check(nm + "::hint:leading", (h // (sizes[1] * sizes[2])) == t[0])
+            mid = t[0] * sizes[1] + t[1]
+            vc.check(nm + "::hint:middle", And(mid % sizes[1] == t[1], mid // sizes[1] == t[0]))
+            vc.check(nm + "::hint:digit0", (h // (sizes[1] * sizes[2])) % sizes[0] == t[0])
+            vc.check(nm + "::hint:digit1", (h // sizes[2]) % sizes[1] == t[1])
+            vc.check(nm + "::hint:digit2", h % sizes[2] == t[2])
+        vc.check(nm + "::surjective", Eq(digits(h, sizes, "RM"), tuple(t)))
+
+
+UNITS += [LazyProduct("CM"), LazyProduct("RM"), DigitsBijective()]
